@@ -31,7 +31,29 @@
    -DH_MODE=m     0 layout; 1 passing (classification etc.), proved for the declarations whose layout agrees
    -DH_MAXSIZE=b  bound on sizeof of the outer aggregate (default 64) */
 #include "h.h"
+#if H_CBMC
+/* MODELLING STEP (CBMC build only; the native replay uses the real unions): the unions of the c2mir TU are
+   given struct layout.  CBMC 6.11 neither folds reads of union members back to the pointers written (node.u.ops
+   head/tail stay symbolic: every list loop and type recursion is then followed to its bound) nor resolves
+   p->u.member->field (dereference of an "invalid object": spurious failures of c2mir's own asserts).
+   This is exact for the functions encoded here because none of them reads a union member other than the one
+   last written: struct type.u is read according to type->mode, struct node.u only as .ops (list nodes), struct
+   expr.c as i_val (array sizes) / u_val (bit-field widths) - the harness writes both of the latter. */
+#include <assert.h>
+#include <ctype.h>
+#include <errno.h>
+#include <float.h>
+#include <limits.h>
+#include <math.h>
+#include <setjmp.h>
+#include <stdarg.h>
+#include <wchar.h>
+#define union struct
 #include "c2mir/c2mir.c"
+#undef union
+#else
+#include "c2mir/c2mir.c"
+#endif
 #include "sysv_ref.h"
 
 #ifndef H_N
@@ -144,12 +166,10 @@ static void h_nd_description (void) {
 }
 
 /* ---------------- description -> c2mir graph ---------------- */
-/* Lists are linked by hand, the whole `u` union of a node written in ONE assignment: after member-wise
-   writes (NL_APPEND) CBMC holds the union as byte_update(...) terms, cannot fold head/tail back to constants
-   and then follows every list loop and every type recursion of the code under test to the unwinding bound.
-   The links are those NL_APPEND produces (mir-dlist.h; the list operations themselves are C19's subject). */
-#define H_SET_U(obj, member, val) ((obj).u = (__typeof__ ((obj).u)){.member = (val)}) /* whole-union write, see above */
-#define H_SET_OPS(n, h, t) ((n).u = (__typeof__ ((n).u)){.ops = {(h), (t)}})
+/* Lists are linked by hand (all shapes are concrete); the links are those NL_APPEND produces (mir-dlist.h; the
+   list operations themselves are C19's subject). */
+#define H_SET_U(obj, member, val) ((obj).u.member = (val))
+#define H_SET_OPS(n, h, t) ((n).u.ops.head = (h), (n).u.ops.tail = (t))
 static void h_link (node_t a, node_t b) { /* a before b */
   a->op_link.next = b;
   b->op_link.prev = a;
@@ -204,7 +224,8 @@ static void h_mk_member (int k, const sv_member *m, int is_arr /* concrete */, n
     h_op3[k].code = N_I;
     h_op3[k].attr = &h_width_expr[k];
     h_width_expr[k].const_p = 1;
-    h_width_expr[k].c = (__typeof__ (h_width_expr[k].c)){.u_val = (mir_ullong) m->width};
+    h_width_expr[k].c.i_val = m->width; /* check() stores the value of the constant expression */
+    h_width_expr[k].c.u_val = (mir_ullong) m->width;
   } else
     h_op3[k].code = N_IGNORE;
   H_SET_OPS (h_member[k], &h_op0[k], &h_op3[k]);
@@ -225,7 +246,8 @@ static void h_mk_member (int k, const sv_member *m, int is_arr /* concrete */, n
     h_arr_size[k].code = N_I;
     h_arr_size[k].attr = &h_arr_size_expr[k];
     h_arr_size_expr[k].const_p = 1;
-    h_arr_size_expr[k].c = (__typeof__ (h_arr_size_expr[k].c)){.i_val = m->arr_n};
+    h_arr_size_expr[k].c.u_val = (mir_ullong) m->arr_n;
+    h_arr_size_expr[k].c.i_val = m->arr_n;
     h_decl[k].decl_spec.type = &h_arr[k];
   } else
     h_decl[k].decl_spec.type = &h_type[k];
